@@ -82,7 +82,9 @@ def run(ctx):
 
     n_dec = 0
     for err in ("zlib.error", "builtins.OSError"):
-        rows_d = effect_rows(ctx, df, DecRule(ctx, RS, raising={"decompress": err}, pure_self=("_flush_decoder",)), f"{RS}.BaseHTTPResponse")
+        from ..rows import helper_closure as _hc
+        rows_d = effect_rows(ctx, df, DecRule(ctx, RS, raising={"decompress": err}, pure_self=("_flush_decoder",), inline=set(_hc(m, [df], stop=("_flush_decoder", "_init_decoder"))) - {df.qual}),
+                             f"{RS}.BaseHTTPResponse")
         faulted = [r for r in rows_d if r.st.ts.get("fault")]
         n_dec += len(faulted)
         for r in faulted[:3]:
@@ -247,40 +249,50 @@ def rule_chunk_state(ctx):
     R9 = ctx.rule("C13-R9", "chunk-position typestate: after _handle_chunk the remaining-bytes counter is None (chunk finished, its CRLF consumed) or a remainder that is positive because the path decided amt < chunk_left strictly - never 0, which read_chunked reserves for the terminating chunk", "E5 on _handle_chunk")
     hc = m.method(HR, "_handle_chunk")
 
-    class HCRule(BaseRule):
-        def call(self, it, st, node, recv, pos, kw):
-            t = ast.unparse(node.func)
-            if t == "self._fp._safe_read":
-                s = st.copy()
-                a = pos[0] if pos else UNK
-                s.ts["reads"] = s.ts.get("reads", ()) + ((a.val if a.kind == "const" else (a.sym or "?")),)
-                return [Out("normal", s, AV("unk", none=False))]
-            return [Out("normal", st, UNK)]
+    from ..rows import GenRule as _G, effect_rows as _er, helper_closure as _hcl
+    from ..terms import T as _T, destruct as _d, norm as _norm
 
-    outs, it = run_function(m, hc, HCRule(), HR, seeds={("self", "chunk_left"): AV("unk", sym="chunk_left"), ("self", "_fp"): AV("obj", "fp", truth=True, none=False)}, record_decisions=True)
+    rows9 = [r for r in _er(ctx, hc, _G(ctx, hc.module, inline=set(_hcl(m, [hc])) - {hc.qual}), HR) if r.returns]
+    CL, AMT = "self.chunk_left", "p:" + hc.params()[0]
     n = 0
     seen = set()
-    for o in outs:
-        if o.kind == "raise":
-            continue
-        cl = o.st.heap.get(("self", "chunk_left"))
-        clv = o.st.view(cl) if cl is not None else None
-        strict = o.st.ts.get(("cmp", "p:amt", "<", "chunk_left"))
-        reads = o.st.ts.get("reads", ())
-        finished = clv is not None and clv.kind == "const" and clv.val is None
-        key = (finished, strict, reads)
+    for r in rows9:
+        reads = [tuple(a_ for a_ in e[2:] if isinstance(a_, str)) for e in r.events("call") if e[1].endswith("._safe_read")]
+        stores = [e[3] for e in r.events("store") if e[1] == "self" and e[2] == "chunk_left"]
+        final = stores[-1] if stores else None
+        key = (final, tuple(reads))
         if key in seen:
             continue
         seen.add(key)
         n += 1
-        if finished:
-            ok = 2 in reads
-            ctx.ob(R9, hc.qual, f"chunk finished (counter None): CRLF consumed, reads={reads}", ok, "" if ok else "a finished chunk leaves its CRLF on the stream: the next size line is misparsed", witness=o.st.witness(), node=hc.node)
+        if final == "None":
+            ok = ("2",) in reads
+            ctx.ob(R9, hc.qual, f"chunk finished (counter None): CRLF consumed, reads={reads}", ok, "" if ok else "a finished chunk leaves its CRLF on the stream: the next size line is misparsed", witness=r.witness(), node=hc.node)
+            continue
+        # the chunk stays open: the counter must have been decreased by what was read and be provably positive
+        strict = r.cmp(AMT, "<", CL)
+        if strict is None and r.cmp(CL, ">", AMT) is not None:
+            strict = r.cmp(CL, ">", AMT)
+        ok, why = False, ""
+        if final is None:
+            why = "the counter is left unchanged although the chunk is not closed"
         else:
-            ok = strict is True and clv is not None and clv.sym != "chunk_left"
-            ctx.ob(R9, hc.qual, f"chunk partially read: counter decreased under a strict amt < chunk_left (decided: {strict})", ok,
-                   "" if ok else "the counter can reach 0 (or is left unchanged) without the chunk being closed: read_chunked takes 0 for the terminating chunk and silently drops the rest of the body", witness=o.st.witness(), node=hc.node)
-    ctx.sites(R9, n, 3, "exits of _handle_chunk")
+            fop, fa = _d(_norm(final))
+            took = fa[1] if fop == "sub" and len(fa) == 2 and fa[0] == CL else None
+            read_it = took is not None and any(_norm(x[0]) == took for x in reads if x)
+            if took == AMT:
+                ok = strict is True and read_it
+            elif took is not None and _d(took)[0] == "min" and set(_d(took)[1]) == {AMT, CL}:
+                # chunk_left - min(amt, chunk_left) >= 0, stored only when it is non-zero
+                nz = r.truth(final)
+                pos_ = r.cmp(final, ">", "0")
+                ok = (nz is True or pos_ is True) and read_it
+                strict = "non-zero remainder of chunk_left - min(amt, chunk_left)" if ok else strict
+            why = "" if ok else f"counter := {final[:70]} with amt < chunk_left decided: {strict}"
+        ctx.ob(R9, hc.qual, f"chunk partially read: counter decreased by what was read and provably positive (decided: {strict})", ok,
+               "" if ok else (why + ": the counter can reach 0 (or is left unchanged) without the chunk being closed: read_chunked takes 0 for the terminating chunk and silently drops the rest of the body"),
+               witness=r.witness(), node=hc.node)
+    ctx.sites(R9, n, 2, "exits of _handle_chunk")
     # read_chunked: 0 means terminator, and the size line is only read when the counter is None
     from . import c13_rows as _c13r
     _c13r.r9_size_line_guard(ctx, R9)
